@@ -391,38 +391,18 @@ theorem mem_txDifference (a b : List Nat) (t : Nat) : t ∈ txDifference a b ↔
 
 theorem dropLookupsOf_apply (x : Blk) : ∀ (ts : List Nat) (lk : Map Loc) (t : Nat),
     dropLookupsOf lk x ts t = if t ∈ ts ∧ (∃ l, lk t = some l ∧ l.blk = x.id) then none else lk t := by
-  intro ts
-  induction ts with
-  | nil => intro lk t; simp [dropLookupsOf]
-  | cons a ts ih =>
-    intro lk t
-    unfold dropLookupsOf
-    cases hla : lk a with
-    | none =>
-      simp only
-      rw [ih]
-      by_cases hta : t = a
-      · subst hta
-        simp [hla]
-      · simp only [List.mem_cons, hta, false_or]
-    | some l =>
-      simp only
-      by_cases hb : l.blk = x.id
-      · rw [if_pos hb, ih]
-        by_cases hta : t = a
-        · subst hta
-          simp [hla, hb]
-        · simp only [upd_other _ _ _ _ hta, List.mem_cons, hta, false_or]
-      · rw [if_neg hb, ih]
-        by_cases hta : t = a
-        · subst hta
-          have h1 : ¬ ∃ l', lk t = some l' ∧ l'.blk = x.id := by
-            rintro ⟨l', h1, h2⟩
-            rw [hla] at h1
-            cases h1
-            exact hb h2
-          simp [h1]
-        · simp only [List.mem_cons, hta, false_or]
+  intro ts lk t
+  unfold dropLookupsOf
+  cases hl : lk t with
+  | none => simp
+  | some l =>
+    simp only
+    by_cases hc : l.blk = x.id ∧ t ∈ ts
+    · rw [if_pos hc, if_pos ⟨hc.2, l, rfl, hc.1⟩]
+    · rw [if_neg hc, if_neg]
+      rintro ⟨h1, l', h2, h3⟩
+      cases h2
+      exact hc ⟨h3, h1⟩
 
 /-! ### canonical-number loops -/
 
